@@ -596,21 +596,27 @@ def _float_eq(exp, got):
     return struct.pack("<d", float(exp)) == struct.pack("<d", got)
 
 
-def normal_eq(n, d, r):
+def normal_eq(n, d, r, loose=False):
     """Is r an acceptable read-back of datum d written under node n?  Accepts exactly
     the documented normalisations: defaults for omitted fields, sequences -> lists,
     numbers under float/double -> float, binary32 rounding, NaN ~ NaN; at a union any
-    branch the datum conforms to."""
+    branch the datum conforms to.  loose=True (set below a union at which a mapping datum
+    conforms both to a record branch and to a map branch -- precedence between the two is
+    nowhere documented, known finding) additionally tolerates record keys being dropped."""
     n = deref(n)
     k = n.k
     if k == "union":
         if isinstance(d, tuple) and len(d) == 2 and isinstance(d[0], str):
-            return any(branch_name(b) == d[0] and normal_eq(b, d[1], r) for b in n.branches)
+            return any(branch_name(b) == d[0] and normal_eq(b, d[1], r, loose) for b in n.branches)
+        if not loose and isinstance(d, _abc.Mapping) and "-type" not in d:
+            conf = [deref(b).k for b in n.branches if conforms(b, d, logical=False)]
+            if "map" in conf and "record" in conf:
+                loose = True
         if isinstance(d, float) and any(deref(b).k == "double" for b in n.branches):
             # documented writer behaviour: a Python float is never narrowed to 'float' when the
             # union offers 'double' -- it must come back bit-exact
             return _float_eq(d, r)
-        return any(conforms(b, d, logical=False) and normal_eq(b, d, r) for b in n.branches)
+        return any(conforms(b, d, logical=False) and normal_eq(b, d, r, loose) for b in n.branches)
     if k == "null":
         return d is None and r is None
     if k == "boolean":
@@ -628,24 +634,24 @@ def normal_eq(n, d, r):
     if k == "enum":
         return isinstance(r, str) and r == d
     if k == "array":
-        return isinstance(r, list) and len(r) == len(d) and all(normal_eq(n.items, x, y) for x, y in zip(d, r))
+        return isinstance(r, list) and len(r) == len(d) and all(normal_eq(n.items, x, y, loose) for x, y in zip(d, r))
     if k == "map":
         if not isinstance(r, dict) or set(r) != set(d):
             return False
-        return all(normal_eq(n.values, v, r[kk]) for kk, v in d.items())
+        return all(normal_eq(n.values, v, r[kk], loose) for kk, v in d.items())
     if k == "record":
         if not isinstance(r, dict) or set(r) != {f.name for f in n.fields}:
             return False
-        if set(d) - {f.name for f in n.fields} - {"-type"}:
+        if not loose and set(d) - {f.name for f in n.fields} - {"-type"}:
             # dropping keys of the datum is not a documented normalisation: a datum with fields this
             # record does not have was not written "as this record" (matters at unions of records)
             return False
         for f in n.fields:
             if f.name in d:
-                if not normal_eq(f.type, d[f.name], r[f.name]):
+                if not normal_eq(f.type, d[f.name], r[f.name], loose):
                     return False
             elif f.has_default:
-                if not normal_eq(f.type, default_value(f.type, f.default), r[f.name]):
+                if not normal_eq(f.type, default_value(f.type, f.default), r[f.name], loose):
                     return False
             else:
                 if r[f.name] is not None:
